@@ -24,7 +24,8 @@ PM == INSTANCE PolicyMon WITH ClassSet <- AllClasses
 
 Cfg(i) == LET j == Traces[i].cfg IN
           [retry |-> j.retry,
-           rc |-> [j.rc EXCEPT !.strat = ToSet(j.rc.strat), !.legacy = ToSet(j.rc.legacy)],
+           rc |-> [j.rc EXCEPT !.strat = ToSet(j.rc.strat), !.legacy = ToSet(j.rc.legacy),
+                               !.adaptive = ToSet(j.rc.adaptive)],
            bc |-> [j.bc EXCEPT !.trip = ToSet(j.bc.trip)]]
 
 Cur == Traces[tid].ev[l]
